@@ -13,7 +13,7 @@
    RunnerCloserManager.Add/Run); theorems quantified over [v] hold for
    both.  Errors are codes; a returned error is the list of the leaves of its join. *)
 From Kit Require Import C12.Model C12.Spec C12.Check C12.Proofs_oracle C12.Proofs_rm C12.Proofs_cm
-  C12.Proofs_main.
+  C12.Proofs_main C12.Proofs_live.
 
 (* RUN WAITS FOR ALL.  When Run has returned, every goroutine it started has handed over its
    result, and goroutines were started for (at least) all the runners given to the constructor. *)
@@ -281,6 +281,104 @@ Theorem C12_close_reaches_runners_refuted :
              close_cannot_stop s (step_c_gen Fixed Original)).
 Proof. exact cm_close_reaches_runners_refuted. Qed.
 Print Assumptions C12_close_reaches_runners_refuted.
+
+(* NO WEDGE - the liveness half of "Run returns once all runners have returned".  [candidates_r s]
+   (Check.v) lists everything that happens on its own in a bare manager: the creation of the
+   goroutines, the return of every runner whose condition holds (context cancelled), the
+   collection of every ready result, Run's return, pending locked appends of Add.  In EVERY
+   reachable state of the fixed code in which none of them is enabled, the manager was never
+   started, or Run has returned, or some runner is still running that returns only when its user
+   says so or waits for a cancellation that has not happened.  So Run never waits for anything but
+   a user's runner. *)
+Theorem C12_run_no_wedge : forall bs es s,
+  run_r Fixed (new_rm bs) es = Some s -> quiet_r Fixed s -> explained_r s.
+Proof. exact rm_no_wedge. Qed.
+Print Assumptions C12_run_no_wedge.
+
+(* ... on the code before the second fix the schedule [add_race] ends quiescent, Run not returned,
+   waiting for no runner. *)
+Theorem C12_run_no_wedge_refuted :
+  exists s, run_r Original (new_rm [Free None]) add_race = Some s /\
+            quietb_r Original s = true /\ explainedb_r s = false.
+Proof. exact rm_no_wedge_refuted. Qed.
+Print Assumptions C12_run_no_wedge_refuted.
+
+(* NO WEDGE, closer manager - the liveness half of "Run and every Close call return once all
+   closers finished".  [candidates s] lists everything that happens on its own: Run's set-up
+   steps, the inner manager's steps and due runner returns, the start of shutdown, closer
+   goroutines starting, the fatal closer's select when a branch is ready, the closing of
+   closeFatalShutdown, the collection of closer results, Run's return, every step of every Close
+   call whose condition holds, pending locked appends.  In EVERY reachable state of the fixed code
+   in which none of them is enabled: either Run was never started (or was prevented by Close) and
+   every Close call has returned; or Run has returned and every Close call has returned; or the
+   inner manager waits for a user's runner; or shutdown waits for a user's closer that has not
+   returned.  In particular the fatal closer alone never holds up shutdown, and no Close call
+   stays blocked after Run returned. *)
+Theorem C12_no_wedge : forall g bs cls es s,
+  run_c Fixed (new_cm g bs cls) es = Some s -> quiet_c Fixed s -> explained_c s.
+Proof. exact cm_no_wedge. Qed.
+Print Assumptions C12_no_wedge.
+
+(* ... on the code before the fixes RunnerCloserManager.Add racing with the start of Run leaves Run
+   stuck in the inner collection loop: quiescent, not returned, waiting for nobody. *)
+Theorem C12_no_wedge_refuted :
+  exists s, run_c Original (new_cm None [Free None] [None]) closer_add_race = Some s /\
+            quietb_c Original s = true /\ explainedb_c s = false /\ c_pc s = CWaitInner.
+Proof. exact cm_no_wedge_refuted. Qed.
+Print Assumptions C12_no_wedge_refuted.
+
+(* TERMINATION.  [rm_measure] / [cm_measure] (Check.v) are natural numbers computed from a state:
+   2 per running runner and 1 per ready result plus the goroutine creation and Run's return; 3 per
+   closer goroutine not yet started, 2 per running one, 1 per uncollected result, the closing of
+   closeFatalShutdown, Run's return; 2 and 1 for a Close call before / after its second
+   compare-and-swap; 4 resp. 2 per pending locked append.  EVERY step that a manager takes on its
+   own in ANY reachable state strictly decreases them: left to itself a manager comes to rest
+   after at most that many steps (bare manager: both variants; closer manager: fixed code). *)
+Theorem C12_run_terminates : forall v bs es s e s',
+  run_r v (new_rm bs) es = Some s -> In e (candidates_r s) -> step_r v s e = Some s' ->
+  rm_measure s' < rm_measure s.
+Proof. exact rm_measure_decreases. Qed.
+Print Assumptions C12_run_terminates.
+
+Theorem C12_shutdown_terminates : forall g bs cls es s e s',
+  run_c Fixed (new_cm g bs cls) es = Some s -> In e (candidates s) ->
+  step_c Fixed s e = Some s' -> cm_measure s' < cm_measure s.
+Proof. exact cm_measure_decreases. Qed.
+Print Assumptions C12_shutdown_terminates.
+
+(* ... so a run consisting of own steps only has at most [cm_measure] of them. *)
+Theorem C12_own_steps_bounded : forall g bs cls es s n s',
+  run_c Fixed (new_cm g bs cls) es = Some s -> own_run_c s n s' ->
+  n + cm_measure s' <= cm_measure s.
+Proof. exact cm_own_steps_bounded. Qed.
+Print Assumptions C12_own_steps_bounded.
+
+(* RUN AND CLOSE RETURN ONCE THE USER'S RUNNERS AND CLOSERS HAVE.  [settled Fixed s] is what the
+   correspondence's model executor computes after every script action: rounds of "try every
+   candidate once", at most [S (cm_measure s)] of them.  From EVERY reachable state it ends in a
+   quiescent state, and that state is explained: Run and all Close calls have returned (or Run was
+   never started), or a user's runner or closer is still outstanding. *)
+Theorem C12_settles_explained : forall g bs cls es s,
+  run_c Fixed (new_cm g bs cls) es = Some s ->
+  quiet_c Fixed (settled Fixed s) /\ explained_c (settled Fixed s).
+Proof. exact cm_settles_explained. Qed.
+Print Assumptions C12_settles_explained.
+
+Theorem C12_run_settles : forall v bs es s,
+  run_r v (new_rm bs) es = Some s -> quiet_r v (settled_r v s).
+Proof. exact rm_settle_quiet. Qed.
+Print Assumptions C12_run_settles.
+
+(* The boolean forms of "quiescent" and "explained" that the correspondence evaluates on the final
+   model state of every scripted case decide the predicates of the two theorems above. *)
+Theorem C12_quiet_explained_sound : forall v s x,
+  (quietb_c v s = true <-> quiet_c v s) /\ (explainedb_c s = true <-> explained_c s) /\
+  (quietb_r v x = true <-> quiet_r v x) /\ (explainedb_r x = true <-> explained_r x).
+Proof.
+  exact (fun v s x => conj (quietb_c_spec v s) (conj (explainedb_c_spec s)
+                        (conj (quietb_r_spec v x) (explainedb_r_spec x)))).
+Qed.
+Print Assumptions C12_quiet_explained_sound.
 
 (* The boolean oracle evaluated on the implementation's stamped trace decides the trace
    specification of Spec.v; multiset equality of error lists is decided by [msetb]. *)
